@@ -66,12 +66,19 @@ class C04(rowgen.RowGenProp):
         return rowgen.rows_of(reply) != self._plain(req, reply)
 
     def oracle(self, req, reply):
-        if req["k"] != "gen" or "err" in reply or "_ast" not in req["gen"]:
+        if req["k"] != "gen" or "err" in reply:
             return None
         spec = req["gen"]
-        ast = [(p, c) for p, c in spec["_ast"]]
-        want, ok = gens.ref_call_rows(spec["stage"], gens.denote(ast), spec.get("start_index") or 0,
-                                      reply["start_row"], spec["_bob_ref"], spec["_single_ref"], req["ops"])
+        if "_ast" in spec:
+            changes = gens.denote([(p, c) for p, c in spec["_ast"]])
+            bob_ref, single_ref = spec["_bob_ref"], spec["_single_ref"]
+        else:
+            ref = gens.special_reference(spec["type"], spec["stage"])
+            if ref is None:
+                return None
+            changes, bob_ref, single_ref = ref
+        want, ok = gens.ref_call_rows(spec["stage"], changes, spec.get("start_index") or 0,
+                                      reply["start_row"], bob_ref, single_ref, req["ops"])
         if not ok:
             return None
         rows = rowgen.rows_of(reply)
